@@ -5,8 +5,10 @@ import (
 	"go/constant"
 	"go/token"
 	"go/types"
+	"os"
 	"runtime"
 	"slices"
+	"time"
 
 	"golang.org/x/tools/go/ssa"
 )
@@ -269,6 +271,14 @@ func (m *Machine) callSSA2(caller *frame, pos token.Pos, fn *ssa.Function, args 
 			m.embedsDone[fn.Pkg] = true
 			m.loadEmbeds(fn.Pkg)
 		}
+	}
+	if fn.Synthetic == "package initializer" && os.Getenv("VERIF_INITTIME") != "" {
+		t0 := time.Now()
+		defer func() {
+			if d := time.Since(t0); d > 50*time.Millisecond {
+				fmt.Fprintf(os.Stderr, "init %s: %v (inclusive)\n", fn.Pkg.Pkg.Path(), d)
+			}
+		}()
 	}
 	if fn.Blocks == nil {
 		m.unsupported("no code for function %s", fn.String())
@@ -556,7 +566,7 @@ func (m *Machine) visit(fr *frame, instr ssa.Instruction) bool {
 		ch, _ := fr.get(in.Chan).(*Chan)
 		m.chanSend(fr, ch, fr.get(in.X))
 	case *ssa.Select:
-		m.unsupported("select in %s", fr.fn)
+		fr.setv(in, m.selectStmt(fr, in))
 	case *ssa.Store:
 		m.store(fr, deref(in.Addr.Type()), fr.get(in.Addr), fr.get(in.Val))
 	case *ssa.If:
@@ -849,6 +859,58 @@ func (m *Machine) chanRecv(fr *frame, ch *Chan, commaOk bool, elem types.Type) V
 		}
 		m.block(fr, ch)
 	}
+}
+
+// selectStmt: a select over channel operations that are ready NOW. A receive is
+// ready on a non-nil channel that is closed or has a buffered value, a send on a
+// non-nil open channel with buffer space (or a closed one: it then panics, as in
+// Go). With several ready cases the choice is a nondeterministic fork (Go picks
+// pseudo-randomly). With none ready a non-blocking select takes its default; a
+// blocking select with nothing ready is not modelled.
+func (m *Machine) selectStmt(fr *frame, in *ssa.Select) Value {
+	var ready []int
+	for i, st := range in.States {
+		ch, _ := fr.get(st.Chan).(*Chan)
+		if ch == nil {
+			continue
+		}
+		if st.Dir == types.RecvOnly {
+			if len(ch.buf) > 0 || ch.closed {
+				ready = append(ready, i)
+			}
+		} else if ch.closed || len(ch.buf) < ch.cap {
+			ready = append(ready, i)
+		}
+	}
+	sel := -1
+	switch {
+	case len(ready) == 1:
+		sel = ready[0]
+	case len(ready) > 1:
+		sel = ready[m.Fork(len(ready))]
+	case in.Blocking:
+		m.unsupported("blocking select with no ready case in %s", fr.fn)
+	}
+	res := Tuple{m.F.Const(64, uint64(int64(sel))), m.F.False}
+	for i, st := range in.States {
+		if st.Dir != types.RecvOnly {
+			if i == sel {
+				ch, _ := fr.get(st.Chan).(*Chan)
+				m.chanSend(fr, ch, fr.get(st.Send))
+			}
+			continue
+		}
+		elem := st.Chan.Type().Underlying().(*types.Chan).Elem()
+		if i != sel {
+			res = append(res, m.zero(elem))
+			continue
+		}
+		ch, _ := fr.get(st.Chan).(*Chan)
+		tv := m.chanRecv(fr, ch, true, elem).(Tuple)
+		res[1] = tv[1]
+		res = append(res, tv[0])
+	}
+	return res
 }
 
 func (m *Machine) chanClose(fr *frame, ch *Chan) {
